@@ -8,7 +8,7 @@ CONSTANTS
   NS2 = 24
   NS3 = 12
   NSBIG = 12
-  NCAP = 10
+  NCAP = 3
   HOF = 1
   MAXD = 1
   MAXDSLOW = 1
